@@ -108,6 +108,12 @@ CLAIMS["C15"] = dict(
     text="TLC enumerates every map of up to two objects (four kinds, equal and boundary start times, flags, sample shapes) x five timing sections x five break lists x multipliers x modes and checks that objects come out in stable time order, that the first object after a break starts a combo, the closed forms of velocity and duration, and that processing commutes with shifting all times by +-1, -7 and +-10^6 ms; the real decoders are compared with the predicted objects (combo flags, velocity, duration, object and node sample bank/volume/custom index) on every case, and on real files with whole-millisecond times a text-level shift by seven different offsets must change nothing but the times.",
     note="Exactness rule: dyadic velocities and durations so that the `+5 ms` lookups are decided exactly; breaks in chronological file order; at most 2 objects per enumerated map.")
 
+CLAIMS["C01"] = dict(
+    category="exploration", design_ref="DESIGN.md section 4, C01",
+    technique="model-generated and seeded exploration: Reader/Framing TLA+ models re-checked for termination and error provenance; hostile line classes from HitObjectLine.tla replayed under catch_unwind; random noise, hostile grammar, mutations, splices, truncations and encodings through all nine decoders, re-encode and re-decode, with a watchdog, for both feature sets",
+    text="The statement quantifies over all byte strings, which no bounded model can exhaust: the models contribute exhaustive termination / error-provenance checking of the driver on short inputs and systematic generation of every guard of the hit-object grammar; the rest is seeded exploration (tens of thousands of inputs per quick run, hundreds of thousands per thorough run) with the oracle 'all nine decoders return Ok, re-encoding returns valid UTF-8, the second decode returns Ok, no panic, no hang', run with default features and with the tracing feature and a formatting subscriber.",
+    note="Exploration, not proof. Memory safety of the unsafe blocks is not observable by this family of technique and is not claimed.")
+
 NOT_YET = "check not built yet in this round (planned, see DESIGN.md section 4)"
 NA = {
     "C17": "real-valued geometry (Hausdorff distance to Bezier/arc/Catmull curves): no discrete state or history for a TLA+ specification to decide; see DESIGN.md section 4, C17",
